@@ -60,6 +60,7 @@ class Outcome:
     notes: List[str] = field(default_factory=list)
     tape: List[int] = field(default_factory=list)
     labels: List[str] = field(default_factory=list)
+    spans: List[tuple] = field(default_factory=list)
     steps: int = 0
 
 
@@ -91,6 +92,7 @@ def finish_outcome(world: Any, out: Outcome) -> Outcome:
     out.nontrivial = bool(sim.faults) or bool(sim.probes)
     out.tape = list(sim.tape.record)
     out.labels = list(sim.tape.labels)
+    out.spans = list(sim.tape.spans)
     out.steps = sim.steps
     if os.environ.get("HCSIM_DUMP_LOG"):
         for entry in sim.log:
@@ -211,6 +213,22 @@ def shrink(prop_id: str, params: dict, tape: List[int], rule: str, key: dict,
     improved = True
     while improved and runs < max_runs and time.time() - t0 <= max_wall:
         improved = False
+        # 0. remove whole sub-structures (a connection, a request) and decrement their count
+        progress = True
+        while progress:
+            progress = False
+            for start, end, count_pos in sorted(best_out.spans, key=lambda sp: sp[0] - sp[1]):
+                if end > len(best):
+                    continue
+                cand = best[:start] + best[end:]
+                if count_pos is not None and count_pos < start and cand[count_pos] > 0:
+                    cand[count_pos] -= 1
+                elif count_pos is not None:
+                    continue
+                out = test(cand)
+                if out is not None and len(out.tape) < len(best):
+                    best, best_out, improved, progress = list(out.tape), out, True, True
+                    break
         # 1. truncate
         n = len(best)
         cut = n // 2
@@ -311,6 +329,11 @@ def check(prop_id: str, tier: str, verif_seed: int, jobs_n: int, max_runs: Optio
     t0 = time.time()
     mod = load_prop(prop_id)
     plan = mod.plan(tier)
+    replay_dir = os.path.join(VERIF, "replays")
+    if os.path.isdir(replay_dir):
+        for name in os.listdir(replay_dir):
+            if name.startswith(prop_id + "-"):
+                os.unlink(os.path.join(replay_dir, name))
     total = max_runs if max_runs is not None else plan["runs"]
     budget = budget if budget is not None else plan.get("budget", 600.0)
     cases = list(plan.get("cases", []))
